@@ -384,6 +384,23 @@ def created_levels_use_the_calls_registry(col):
                           "Glommer.glom(Box(), Assign(%s, 5, missing=Box)): %r ; this Glommer's assign handler saw %s, another Glommer's %s, "
                           'the module-level one %s (expected k1, k2, k3 / nothing / nothing)' % (short(path), got if not got.ok else 'returned',
                                                                                                 sorted(seen_g), seen_other, seen_global), None)
+    # one wildcard whose matches are of different registered types: each match is written through the handler of ITS type
+    class Crate:
+        pass
+    seen_crate = []
+    g3 = Glommer()
+    g3.register(Crate, assign=lambda o, k, v: (seen_crate.append(k), o.__dict__.__setitem__('crate_' + k, v)) and None)
+    for order in ((dict, Crate), (Crate, dict), (dict, Crate, dict)):
+        del seen_crate[:]
+        items = [t() for t in order]
+        got = call(g3.glom, items, Assign('*.x', 1))
+        col.case(('wildcard-assign-mixed-registered-types', tuple(t.__name__ for t in order)), True)
+        col.count('api_lookups', len(order))
+        want = [{'x': 1} if t is dict else {'crate_x': 1} for t in order]
+        have = [i if isinstance(i, dict) else dict(i.__dict__) for i in items]
+        if not got.ok or have != want:
+            col.violation('C13/wildcard-assign-uses-one-handler-for-all-matches', "Glommer.glom([%s], Assign('*.x', 1)) with a custom assign handler for Crate: %r ; "
+                          'items now %s, expected %s' % (', '.join(t.__name__ for t in order), got if not got.ok else 'returned', have, want), None)
     # and the other way round: module-level glom() uses the module-level handler on every level
     del seen_g[:], seen_other[:], seen_global[:]
     got = call(glom_pkg.glom, _Box(), Assign('k1.k2.k3', 5, missing=_Box))
